@@ -38,6 +38,7 @@ type Stats struct {
 	Yields    int
 	OSCalls   int
 	SyncCalls int
+	GoStmts   int      // go statements in packages instrumented with yields: goroutines the baton scheduler would not own
 	OSLeft    []string // os selectors left untouched (not implemented by simos)
 }
 
@@ -49,6 +50,7 @@ func (s *Stats) Add(o Stats) {
 	s.Yields += o.Yields
 	s.OSCalls += o.OSCalls
 	s.SyncCalls += o.SyncCalls
+	s.GoStmts += o.GoStmts
 	s.OSLeft = append(s.OSLeft, o.OSLeft...)
 }
 
@@ -211,6 +213,7 @@ func Dir(dir, importPath string, opts Options, im *Importer, lenient bool) (Stat
 	st.MapRanges, st.Allocs, st.Steps, st.Yields, st.OSCalls = rw.nMap, rw.nAlloc, rw.nStep, rw.nYield, rw.nOS
 	st.OSLeft = rw.osLeft
 	st.SyncCalls = rw.nSync
+	st.GoStmts = rw.nGo
 	if opts.Globals {
 		if err := writeGlobals(dir, files, info); err != nil {
 			return st, err
@@ -261,6 +264,7 @@ type rewriter struct {
 	nStep        int
 	nYield, nOS  int
 	nSync        int
+	nGo          int
 	osLeft       []string
 	veCounter    int
 }
@@ -309,6 +313,9 @@ func (rw *rewriter) stmts(list []ast.Stmt) []ast.Stmt {
 	out := make([]ast.Stmt, 0, len(list)*2)
 	for _, s := range list {
 		rw.stmt(s)
+		if _, isGo := s.(*ast.GoStmt); isGo && rw.opts.Yield {
+			rw.nGo++
+		}
 		if rw.opts.Yield {
 			rw.nYield++
 			rw.touchedSimrt = true
